@@ -59,6 +59,15 @@ CHECKS['C01'] = dict(engine='LEXZ3+CH', category='model_checking', design='4/C01
    text='Tokenisation side (solver, all three lexers): every identifier-shaped word up to 16/24 ASCII characters that an earlier lexer rule captures is derived by sat+blocking until unsat, and each one not in the printer\'s reserved set is replayed through the printer and parser; every bare-shaped word is an ID lexeme; no earlier rule can start at a back-quote, a quote or a digit run. Value side (solver): printed identifier parts, paths and variables decode to themselves for all values within the bound; inexpressible values are reported as KNOWN-FINDING while they fail. Skeletons (concrete, stated): every production\'s shortest sentence and every corpus statement is parsed, printed, re-parsed (tree and text equal), printed again and copied.',
    note='Trusted: z3 regex theory, LEXZ3 translator (validated against re on every run), CrossHair str model (one mis-modelled strip() case was met; counterexamples are always replayed natively), reference readers. String-constant atoms are C07. The skeleton part is concrete execution over a bounded statement family, not a solver verdict. Non-ASCII letters are outside the LEXZ3 alphabet.')
 
+CHECKS['C09'] = dict(engine='CH', category='model_checking', design='4/C09',
+   technique='CrossHair (z3) path-splitting over qualifier spellings and catalog forms of a 26-skeleton statement family; leaves run the real parser+planner and a generic plan walker checks numbering and that every Result reference (fields, embedded queries, sub-steps) points strictly backwards',
+   text='For every member of the statement family (joins of 2-3 tables, subqueries in WHERE/target/CASE operand/function argument, CTE, FROM-subquery, UNION, INSERT..SELECT, UPDATE..FROM, DELETE, CREATE TABLE AS, model joins with versions/projects/USING partition_size, time-series model, api and files databases) x every spelling of the qualifiers x catalog supplied as names or dicts x predictor metadata as list or legacy dict: planning returns a plan or raises PlanningException/NotImplementedError, never an internal error; steps are numbered consecutively; every reference to a step result - in fields, inside embedded queries and inside map-reduce sub-steps - points to a strictly earlier step.',
+   note='Trusted: CrossHair path bookkeeping (structure inputs are finite-domain; leaves run natively), generic walker in harness/planlib.py. Shapes outside the family are outside the claim. Known finding: t JOIN model JOIN t2 USING partition_size (forward reference).')
+CHECKS['C10'] = dict(engine='CH', category='model_checking', design='4/C10',
+   technique='CrossHair (z3) path-splitting over qualifier spellings and catalog forms of the same statement family; leaves run the real parser+planner; independent routing oracle written from the property text',
+   text='For every family member x spelling x catalog form: each data table is fetched from exactly the integration its first name part resolves to case-insensitively, the query sent there carries no integration qualifier and no table of another integration, no model is sent to an integration, every model reference becomes an apply-predictor step in its own project with the version suffix kept, and the plan equals (case-insensitively) the plan for the canonical lower-case spelling and the canonical catalog form.',
+   note='Trusted: CrossHair path bookkeeping, expected-routing table per skeleton in harness/c0910lib.py. Spellings: all 2^3 case variants of int1/int2 and the first letter of mindsdb/proj.')
+
 NA_PENDING = {}
 
 
